@@ -95,7 +95,7 @@ func (f Nth) remove(value any) (out any, changed bool) {
 	return
 }
 
-func (f Nth) locate(pp Expr, data any, rest Expr, max int) (locs []Expr) {
+func (f Nth) locate(pp Expr, data, root any, rest Expr, max int) (locs []Expr) {
 	var (
 		v   any
 		has bool
@@ -134,7 +134,7 @@ func (f Nth) locate(pp Expr, data any, rest Expr, max int) (locs []Expr) {
 		}
 	}
 	if has {
-		locs = locateNthChildHas(pp, Nth(i), v, rest, max)
+		locs = locateNthChildHas(pp, Nth(i), v, root, rest, max)
 	}
 	return
 }
